@@ -17,6 +17,7 @@ import (
 
 	"verifharness/internal/exact"
 	"verifharness/internal/gen"
+	"verifharness/internal/kf"
 	"verifharness/internal/stats"
 )
 
@@ -749,6 +750,33 @@ func TestEnumTwoSegmentPaths(t *testing.T) {
 	} else {
 		stats.Subspace("1-in-50 sample of the 49^3 x 100 x 2 two-segment path cases (exhaustive in the thorough tier)", taken, false)
 	}
+}
+
+// ---------------------------------------------------------------- known finding
+
+// TestKnownOpenCornerGraze runs the witness of finding open-corner-graze-point-piece: with
+// OpenBound(true) the segment (0,2)-(2,0) only touches the box (1,1)-(2,2) at the corner (1,1), so
+// nothing of it is strictly inside; the unchanged tree returns the one-point piece [(1,1) (1,1)].
+func TestKnownOpenCornerGraze(t *testing.T) {
+	stats.Eval("TestKnownOpenCornerGraze", 1)
+	box := orb.Bound{Min: orb.Point{1, 1}, Max: orb.Point{2, 2}}
+	ls := orb.LineString{{0, 2}, {2, 0}}
+	got := clip.LineString(box, ls, clip.OpenBound(true))
+	if len(got) == 0 {
+		return // repaired: nothing to report, and checkLine accepts the absence everywhere
+	}
+	what := fmt.Sprintf("clip.LineString(Bound{(1,1),(2,2)}, LineString{(0,2),(2,0)}, OpenBound(true)) = %v: a one-point piece at the corner although nothing of the segment is strictly inside", got)
+	if _, ok := kf.Get("C07", knownGrazeKey); ok {
+		stats.Known(knownGrazeKey, what)
+		return
+	}
+	if sh, _ := stats.Shard(); sh != 0 {
+		return // one report is enough
+	}
+	c := mkCase(box, true, ls)
+	err := fmt.Errorf("%s [not listed in known_findings.json]", what)
+	path := stats.RecordFailure("TestKnownOpenCornerGraze", c, err)
+	t.Fatalf("%v (replay %s)", err, path)
 }
 
 // ---------------------------------------------------------------- regression cases
